@@ -30,6 +30,7 @@ import (
 	"strconv"
 	"strings"
 	"sync"
+	"sync/atomic"
 	"time"
 
 	"github.com/ozontech/seq-db/frac"
@@ -42,6 +43,7 @@ import (
 
 var (
 	fRuns     = flag.Int("runs", 0, "parent mode: number of runs")
+	fFirst    = flag.Int("first", 0, "parent mode: index of the first run (to reproduce one run of a batch)")
 	fPhases   = flag.Int("phases", 4, "")
 	fSeed     = flag.Int("seed", 1, "")
 	fOut      = flag.String("out", "store.ndjson", "parent mode: concatenated trace")
@@ -88,7 +90,60 @@ var (
 	activeName string
 	delBegun   = map[string]bool{}
 	violations []map[string]any
+
+	allocMu     sync.Mutex
+	phaseFirstB = 1            // bulks below were settled by the restart of this phase
+	ackedNow    = map[int]bool{} // bulks acknowledged in this phase
 )
+
+func allocBulk() int {
+	allocMu.Lock()
+	defer allocMu.Unlock()
+	b := nextB
+	nextB++
+	return b
+}
+
+func markAcked(b int) {
+	allocMu.Lock()
+	ackedNow[b] = true
+	allocMu.Unlock()
+}
+
+// reportable: the bulk is settled - acknowledged in this phase, or begun before this phase's restart
+// (a bulk still in flight may become visible at any moment and is not part of the abstract state yet)
+func reportable(b int) bool {
+	allocMu.Lock()
+	defer allocMu.Unlock()
+	return b < phaseFirstB || ackedNow[b]
+}
+
+// concurrentBulks: several goroutines send bulks; Store.WaitIdle (a WaitGroup.Wait that races with the Add
+// of the next bulk) must then not be used - observations wait for the indexer instead
+var concurrentBulks bool
+
+// The bulker goroutines may not outrun the maintenance passes: a fraction that grows beyond TotalSize on
+// its own would be popped by retention in the very pass that rotates it, while bulks are still being
+// indexed into it - a degenerate configuration (TotalSize below one fraction) that production rules out
+// and that the listed properties do not quantify over. sinceMaint counts the bulks since the last pass.
+var (
+	sinceMaint atomic.Int64
+	maintOver  atomic.Bool
+)
+
+func doBulk(e *env.Env) {
+	b := allocBulk()
+	logEv(event{Ev: "bulkbegin", B: b})
+	if err := e.Bulk(bulkDocs(b)); err != nil {
+		viol("bulk failed: "+err.Error(), nil)
+		os.Exit(0)
+	}
+	if !concurrentBulks {
+		e.WaitIdle()
+	}
+	markAcked(b)
+	logEv(event{Ev: "bulk", B: b})
+}
 
 var evSeq int
 
@@ -251,6 +306,12 @@ func observe(e *env.Env, quiet bool) {
 		logMu.Unlock()
 		var buf []map[string]any
 		recs := observeOnce(e, &buf)
+		// an acknowledged bulk is indexed in the background (a rotation may have overtaken it, so that waiting
+		// for the current writer is not enough): give the indexer up to a second before the reading counts
+		if try < 40 && missingAcked(recs) {
+			time.Sleep(25 * time.Millisecond)
+			continue
+		}
 		logMu.Lock()
 		if evSeq == start {
 			for _, v := range buf {
@@ -264,6 +325,23 @@ func observe(e *env.Env, quiet bool) {
 		logMu.Unlock()
 		time.Sleep(2 * time.Millisecond)
 	}
+}
+
+func missingAcked(recs []frRec) bool {
+	seen := map[int]bool{}
+	for _, r := range recs {
+		for _, b := range r.Bulks {
+			seen[b] = true
+		}
+	}
+	allocMu.Lock()
+	defer allocMu.Unlock()
+	for b := range ackedNow {
+		if !seen[b] {
+			return true
+		}
+	}
+	return false
 }
 
 func observeOnce(e *env.Env, buf *[]map[string]any) []frRec {
@@ -287,6 +365,9 @@ func observeOnce(e *env.Env, buf *[]map[string]any) []frRec {
 		}
 		cnt := map[int]int{}
 		for _, id := range r.IDs {
+			if !reportable(int(id[1] / 100)) {
+				continue
+			}
 			cnt[int(id[1]/100)]++
 			if union[id] {
 				viol(fmt.Sprintf("document %v served by two fractions", id), nil)
@@ -317,11 +398,17 @@ func observeOnce(e *env.Env, buf *[]map[string]any) []frRec {
 	if err != nil {
 		viol("search failed: "+err.Error(), nil)
 	} else {
-		if len(r.IDs) != len(union) {
-			viol(fmt.Sprintf("search over the store returns %d documents, its fractions hold %d", len(r.IDs), len(union)), nil)
+		n := 0
+		for _, id := range r.IDs {
+			if reportable(int(id[1] / 100)) {
+				n++
+			}
+		}
+		if n != len(union) {
+			viol(fmt.Sprintf("search over the store returns %d documents, its fractions hold %d", n, len(union)), nil)
 		}
 		for _, id := range r.IDs {
-			if !union[id] {
+			if reportable(int(id[1]/100)) && !union[id] {
 				viol(fmt.Sprintf("search over the store returns %v which no listed fraction holds", id), nil)
 			}
 		}
@@ -329,7 +416,13 @@ func observeOnce(e *env.Env, buf *[]map[string]any) []frRec {
 	var ids []seq.ID
 	var exp [][]byte
 	var present []bool
-	for b := 1; b < nextB; b++ {
+	allocMu.Lock()
+	upTo := nextB
+	allocMu.Unlock()
+	for b := 1; b < upTo; b++ {
+		if !reportable(b) {
+			continue
+		}
 		for i := 0; i < bulkSize(b); i++ {
 			d := docOf(b, i)
 			ids = append(ids, d.ID())
@@ -400,6 +493,7 @@ func child() {
 		os.Exit(3)
 	}
 	readLog()
+	phaseFirstB = nextB
 	var err error
 	logF, err = os.OpenFile(*fLog, os.O_APPEND|os.O_CREATE|os.O_WRONLY, 0o644)
 	if err != nil {
@@ -439,20 +533,48 @@ func child() {
 		suicideWG.Wait()
 		async = false
 	}
+	// in a third of the phases the bulks come from 1-2 goroutines of their own, concurrently with the
+	// maintenance passes (rotation and seal overtaking bulks in flight) and with the observations
+	conc := rng.Intn(3) == 0
+	concurrentBulks = conc
+	var bulkers sync.WaitGroup
+	if conc {
+		nb := 1 + rng.Intn(2)
+		per := 2 + rng.Intn(*fOps)
+		for w := 0; w < nb; w++ {
+			bulkers.Add(1)
+			wr := rand.New(rand.NewSource(int64(*fSeed)*7919 + int64(*fPhase)*13 + int64(w)))
+			go func() {
+				defer bulkers.Done()
+				limit := int64(*fTotal / 3 / 500)
+				if limit < 1 {
+					limit = 1
+				}
+				for i := 0; i < per; i++ {
+					for sinceMaint.Load() >= limit && !maintOver.Load() {
+						time.Sleep(200 * time.Microsecond)
+					}
+					if maintOver.Load() {
+						return
+					}
+					sinceMaint.Add(1)
+					doBulk(e)
+					time.Sleep(time.Duration(wr.Intn(3000)) * time.Microsecond)
+				}
+			}()
+		}
+	}
 	for op := 0; op < *fOps; op++ {
 		switch x := rng.Intn(100); {
 		case x < 55:
-			b := nextB
-			nextB++
-			logEv(event{Ev: "bulkbegin", B: b})
-			if err := e.Bulk(bulkDocs(b)); err != nil {
-				viol("bulk failed: "+err.Error(), nil)
-				os.Exit(0)
+			if conc {
+				time.Sleep(time.Duration(rng.Intn(4000)) * time.Microsecond)
+			} else {
+				doBulk(e)
 			}
-			e.WaitIdle()
-			logEv(event{Ev: "bulk", B: b})
 		case x < 85:
 			e.FM().VerifMaintenancePass(&sealWG, &suicideWG)
+			sinceMaint.Store(0)
 			if *fSlow {
 				async = true
 				// give the un-gated seals and deletions of this pass time to finish, as they would between
@@ -468,10 +590,13 @@ func child() {
 			op = *fOps
 		}
 	}
-	if rng.Intn(3) == 0 { // the process just dies, nothing in flight but possibly a parked sealer
-		logEv(event{Ev: "crash"})
+	maintOver.Store(true)
+	if rng.Intn(3) == 0 { // the process just dies (bulks of the bulker goroutines and a parked sealer may be in flight)
+		logMu.Lock() // nothing is logged after the crash line
+		put(event{Ev: "crash"})
 		os.Exit(77)
 	}
+	bulkers.Wait()
 	settle()
 	observe(e, true)
 	logEv(event{Ev: "stopbegin"})
@@ -504,18 +629,8 @@ func scenarioSlowSeal() {
 	activeName = e.FM().Active().Info().Name()
 	logMu.Unlock()
 	var sealWG, suicideWG sync.WaitGroup
-	bulk := func() {
-		b := nextB
-		nextB++
-		logEv(event{Ev: "bulkbegin", B: b})
-		if err := e.Bulk(bulkDocs(b)); err != nil {
-			viol("bulk failed: "+err.Error(), nil)
-			os.Exit(0)
-		}
-		e.WaitIdle()
-		logEv(event{Ev: "bulk", B: b})
-	}
-	for i := 0; i < 3; i++ {
+	bulk := func() { doBulk(e) }
+	for i := 0; i < 3 || e.FM().Active().Info().DocsOnDisk <= *fFrac; i++ { // until the next pass must rotate
 		bulk()
 	}
 	e.FM().VerifMaintenancePass(&sealWG, &suicideWG) // rotates A, its sealer parks
@@ -525,7 +640,7 @@ func scenarioSlowSeal() {
 		fmt.Println(`{"infra":"sealer did not park"}`)
 		os.Exit(3)
 	}
-	for i := 0; i < 3; i++ {
+	for i := 0; i < 3 || e.FM().Active().Info().DocsOnDisk <= *fFrac; i++ { // until the next pass must rotate
 		bulk()
 	}
 	before := len(names)
@@ -546,7 +661,8 @@ func scenarioSlowSeal() {
 		bulk()
 	}
 	observe(e, false)
-	logEv(event{Ev: "crash"})
+	logMu.Lock()
+	put(event{Ev: "crash"})
 	os.Exit(77)
 }
 
@@ -648,7 +764,7 @@ func parent() {
 		go func(r int) {
 			defer wg.Done()
 			defer func() { <-sem }()
-			t, o, f := runOne(r, work)
+			t, o, f := runOne(*fFirst+r, work)
 			results[r] = res{r, t, o, f}
 		}(r)
 	}
@@ -661,7 +777,7 @@ func parent() {
 			os.Exit(3)
 		}
 		os.Stdout.Write(r.out)
-		fmt.Fprintf(fh, `{"ev":"RESET","f":0,"b":0,"o":[],"name":"run %d","ph":0}`+"\n", *fSeed*100000+r.run)
+		fmt.Fprintf(fh, `{"ev":"RESET","f":0,"b":0,"o":[],"name":"run %d","ph":0}`+"\n", *fSeed*100000+*fFirst+r.run)
 		fh.Write(r.trace)
 		lines++
 		for _, l := range bytes.Split(r.trace, []byte("\n")) {
